@@ -236,3 +236,33 @@ Proof.
   intros Hn Hb. simpl. rewrite Hn, Hb. eexists. split; [reflexivity|].
   simpl. unfold upd_rt. rewrite Nat.eqb_refl. reflexivity.
 Qed.
+
+(* ---- the host changes its environment: what a runtime has is a snapshot ---- *)
+(* once a runtime has required process, nothing but its own assignments and deletes changes what it sees: not the host's
+   later Setenv/Unsetenv, not other runtimes, not further requires *)
+Theorem snapshot_stable hs : forall w w' r m,
+  rt_env w r = Some m -> forallb (fun h => negb (touches r h) || match h with RtOp (Req _) => true | _ => false end) hs = true ->
+  hrun hs w = Some w' -> rt_env w' r = Some m.
+Proof.
+  induction hs as [|h hs IH]; intros w w' r m Hm Hall Hrun; cbn [hrun] in Hrun.
+  - inversion Hrun; subst. exact Hm.
+  - cbn [forallb] in Hall. apply andb_prop in Hall as [Hh Hall].
+    destruct (hstep w h) as [w1|] eqn:Es; [|discriminate].
+    apply (IH w1 w' r m); [|exact Hall|exact Hrun].
+    destruct h as [o|k v|k]; cbn [hstep] in Es.
+    + destruct (touches r (RtOp o)) eqn:Et.
+      * cbn in Hh. destruct o as [r0|r0 k v|r0 k]; try discriminate. cbn [touches op_rt] in Et. apply Nat.eqb_eq in Et. subst r0.
+        cbn [step] in Es. rewrite Hm in Es. inversion Es; subst. exact Hm.
+      * rewrite (step_other r w o w1); [exact Hm| |exact Es]. unfold targets. exact Et.
+    + inversion Es; subst. exact Hm.
+    + inversion Es; subst. exact Hm.
+Qed.
+
+(* the first require after a host change sees the changed environment (the snapshot is taken then, not earlier) *)
+Theorem snapshot_taken_at_require w r k v m :
+  rt_env w r = None -> build_env (host_set k v (host w)) [] = Some m ->
+  exists w', hrun [HostSet k v; RtOp (Req r)] w = Some w' /\ rt_env w' r = Some m.
+Proof.
+  intros Hn Hb. cbn [hrun hstep step rt_env host]. rewrite Hn, Hb. eexists. split; [reflexivity|].
+  cbn. unfold upd_rt. rewrite Nat.eqb_refl. reflexivity.
+Qed.
